@@ -65,9 +65,17 @@ fn requested_objects(hs: &[CmdHdr]) -> Vec<(u8, u8, bool, u32, Vec<u8>)> {
     let mut out = vec![];
     for h in hs {
         for (idx, p) in &h.objs {
-            let index = if h.two_byte { *idx as u32 } else { (*idx as u8) as u32 };
+            let index = if h.two_byte {
+                *idx as u32
+            } else {
+                (*idx as u8) as u32
+            };
             let (g, v, data): (u8, u8, Vec<u8>) = match h.kind {
-                0 => (12, 1, ra::crob(if p % 2 == 0 { 3 } else { 4 }, 1, 100 + *p as u32, 10, 0)),
+                0 => (
+                    12,
+                    1,
+                    ra::crob(if p % 2 == 0 { 3 } else { 4 }, 1, 100 + *p as u32, 10, 0),
+                ),
                 1 => {
                     let mut d = (*p as i32 * 1000 - 5).to_le_bytes().to_vec();
                     d.push(0);
@@ -289,7 +297,12 @@ impl Prop for Commands {
             proptest::option::weighted(0.85, (1u8..=2, dev)),
             any::<bool>(),
         )
-            .prop_map(|(sbo, headers, dev, implicit)| CmdCase { sbo, headers, dev, implicit })
+            .prop_map(|(sbo, headers, dev, implicit)| CmdCase {
+                sbo,
+                headers,
+                dev,
+                implicit,
+            })
             .boxed()
     }
     fn run(case: &CmdCase) -> CaseOut {
@@ -373,12 +386,18 @@ async fn run_cmd(case: &CmdCase) -> CaseOut {
             .into_iter()
             .flat_map(|h| {
                 let (g, v, wide) = (h.g, h.v, h.q == 0x28);
-                h.objects.into_iter().map(move |o| (g, v, wide, o.index.unwrap_or(0), o.data))
+                h.objects
+                    .into_iter()
+                    .map(move |o| (g, v, wide, o.index.unwrap_or(0), o.data))
             })
             .collect();
         let asked = requested_objects(&case.headers);
         if on_wire != asked {
-            let at = on_wire.iter().zip(asked.iter()).position(|(a, b)| a != b).unwrap_or(on_wire.len().min(asked.len()));
+            let at = on_wire
+                .iter()
+                .zip(asked.iter())
+                .position(|(a, b)| a != b)
+                .unwrap_or(on_wire.len().min(asked.len()));
             out.fail(
                 Fail::new(
                     "request-differs-from-what-was-asked",
@@ -662,8 +681,10 @@ fn answer(req: &Fragment) -> Fragment {
             let mut body = vec![7, 0, 0, 0, 8, 0, 0, 0, 0, 2, 0, 0, 0];
             body[12] = 0;
             // the directory "d" is opened with handle 9 (and closed with it)
-            let is_dir_open = req.func == 25 && req.objects.ends_with(b"d") && !req.objects.ends_with(b".txt");
-            let is_dir_close = req.func == 26 && req.objects.len() >= 10 && req.objects[6..10] == [9, 0, 0, 0];
+            let is_dir_open =
+                req.func == 25 && req.objects.ends_with(b"d") && !req.objects.ends_with(b".txt");
+            let is_dir_close =
+                req.func == 26 && req.objects.len() >= 10 && req.objects[6..10] == [9, 0, 0, 0];
             if is_dir_open || is_dir_close {
                 body[0] = 9;
             }
@@ -826,16 +847,26 @@ fn submit_kind(rig: &MasterRig, name: &'static str, fl: FileLog) -> Pending {
             h.check_link_status().await.map_err(|e| format!("{:?}", e))
         }),
         "file_auth" => rig.submit(name, async move {
-            h.get_file_auth_key(FileCredentials { user_name: "u".into(), password: "p".into() })
-                .await
-                .map(|_| ())
-                .map_err(|e| format!("{:?}", e))
+            h.get_file_auth_key(FileCredentials {
+                user_name: "u".into(),
+                password: "p".into(),
+            })
+            .await
+            .map(|_| ())
+            .map_err(|e| format!("{:?}", e))
         }),
         "file_open" => rig.submit(name, async move {
-            h.open_file("a.txt", AuthKey::none(), crate::app::file::Permissions::default(), 0, FileMode::Read, 1024)
-                .await
-                .map(|_| ())
-                .map_err(|e| format!("{:?}", e))
+            h.open_file(
+                "a.txt",
+                AuthKey::none(),
+                crate::app::file::Permissions::default(),
+                0,
+                FileMode::Read,
+                1024,
+            )
+            .await
+            .map(|_| ())
+            .map_err(|e| format!("{:?}", e))
         }),
         "file_write_block" => rig.submit(name, async move {
             h.write_file_block(FileHandle::new(7), BlockNumber::default(), vec![1, 2, 3])
@@ -843,10 +874,15 @@ fn submit_kind(rig: &MasterRig, name: &'static str, fl: FileLog) -> Pending {
                 .map_err(|e| format!("{:?}", e))
         }),
         "file_close" => rig.submit(name, async move {
-            h.close_file(FileHandle::new(7)).await.map_err(|e| format!("{:?}", e))
+            h.close_file(FileHandle::new(7))
+                .await
+                .map_err(|e| format!("{:?}", e))
         }),
         "file_info" => rig.submit(name, async move {
-            h.get_file_info("a.txt").await.map(|_| ()).map_err(|e| format!("{:?}", e))
+            h.get_file_info("a.txt")
+                .await
+                .map(|_| ())
+                .map_err(|e| format!("{:?}", e))
         }),
         "read_directory" => rig.submit(name, async move {
             h.read_directory("d", DirReadConfig::default(), None)
@@ -908,12 +944,29 @@ async fn judge_outcomes(
                     // swallow the request that is on the wire now and never answer it
                     let tx = rig.take_tx();
                     let seq = tx.iter().rev().find_map(|t| match t {
-                        MTx::Fragment { bytes, .. } if bytes.len() >= 2 && bytes[1] != func::CONFIRM => Some(bytes[0] & 0x0F),
+                        MTx::Fragment { bytes, .. }
+                            if bytes.len() >= 2 && bytes[1] != func::CONFIRM =>
+                        {
+                            Some(bytes[0] & 0x0F)
+                        }
                         _ => None,
                     });
                     if case.noise % 6 != 0 && (seq.is_some() || name == "link_status") {
                         out.label("noise_instead_of_the_reply");
-                        let empty = |seq: u8, uns: bool| Fragment { fir: true, fin: true, con: uns, uns, seq, func: if uns { func::UNSOLICITED_RESPONSE } else { func::RESPONSE }, iin: Some((0, 0)), objects: vec![] };
+                        let empty = |seq: u8, uns: bool| Fragment {
+                            fir: true,
+                            fin: true,
+                            con: uns,
+                            uns,
+                            seq,
+                            func: if uns {
+                                func::UNSOLICITED_RESPONSE
+                            } else {
+                                func::RESPONSE
+                            },
+                            iin: Some((0, 0)),
+                            objects: vec![],
+                        };
                         match case.noise % 6 {
                             1 => rig.send_raw(&rl::encode(0x49, M_ADDR, OUT, &[])),
                             2 => rig.send_raw(&rl::encode(0x0B, M_ADDR, OUT + 1, &[])),
